@@ -22,7 +22,7 @@ FLOORS = {'quick': {'split': 250, 'piece-lib': 4000, 'piece-defn': 4000, 'input-
                     'decompose': 80, 'bezier-piece': 200},
           'thorough': {'split': 3000, 'piece-lib': 40000, 'decompose': 800}}
 MANDATORY_TAGS = ['curve', 'surface-u', 'surface-v', 'rational', 'on-knot', 'on-knot-full', 'in-span', 'near-start', 'dir:uv',
-                  'dir:u', 'dir:v', 'span:binary', 'unnormalized', 'interior-multiplicity-p+1', 'on-jump-knot', 'caller-knot-value']
+                  'dir:u', 'dir:v', 'span:binary', 'unnormalized', 'interior-multiplicity-p+1', 'on-jump-knot', 'caller-knot-value', 'on-near-duplicate-knot']
 TECHNIQUE = ("runtime monitoring: exact reference-model oracle on every piece returned by split_* / decompose_* under the affine "
              "re-parametrisation, plus before/after digests of the input object")
 LEVEL_TEXT = ("Each split / decomposition performed by the workload is judged piece by piece against the exact original shape and "
@@ -42,6 +42,20 @@ def gen(rng, tier, shard, nshards):
             if sdd is not None:
                 yield {'kind': 'split', 'sd': sdd, 'seed': rng.randrange(1 << 30), 'span': rng.choice(['default', 'linear', 'binary']),
                        'discontinuous': True}
+        if i % 4 == 3:
+            # two DISTINCT interior knots closer than 1e-7 (0.3 next to 0.1 + 0.2, or a 5e-8 gap): the shape is split at one of them
+            sdn = G.rand_shape(rng, pdim, clamped_only=True, normalize=rng.random() < 0.7, kvcls='random', maxextra=5, mindeg=2, maxdeg=4)
+            okn = False
+            for d_, (kv, p_) in enumerate(zip(sdn['kvs'], sdn['degrees'])):
+                inter = [j for j in range(p_ + 1, len(kv) - p_ - 2) if kv[j] < kv[j + 1] and kv[j - 1] < kv[j] and (j + 2 >= len(kv) or kv[j + 1] < kv[j + 2])]
+                if inter and not okn:
+                    j = rng.choice(inter)
+                    gap = rng.choice([5e-8, 2e-8, 4.4e-16, 1e-12]) * (kv[-1] - kv[0])
+                    if kv[j] + gap < kv[j + 2 if j + 2 < len(kv) else j + 1] and kv[j] + gap > kv[j]:
+                        kv[j + 1] = kv[j] + gap
+                        okn = True
+            if okn:
+                yield {'kind': 'split', 'sd': sdn, 'seed': rng.randrange(1 << 30), 'span': rng.choice(['default', 'linear']), 'near_duplicate': True}
         if i % 4 == 2:
             # an interior knot whose decimal value below 0.01 is not reproduced by an 18-decimal round trip: the caller later names the
             # value it supplied, the object holds a neighbouring double
@@ -163,11 +177,22 @@ def check(case, ctx):
         U = G.kvs_of(o)[d]
         cnt = Counter(U)
         full = [k for k in so.interior_distinct(degs[d], U) if cnt[k] == degs[d]]
+        nd = []
+        if case.get('near_duplicate'):
+            ks_ = sorted(set(U))
+            nd = [k for a_, k in zip(ks_, ks_[1:]) if 0 < k - a_ <= 1e-7 * (U[-1] - U[0])] + [a_ for a_, k in zip(ks_, ks_[1:]) if 0 < k - a_ <= 1e-7 * (U[-1] - U[0])]
+            nd = [k for k in nd if doms[d][0] < k < doms[d][1] and cnt[k] <= degs[d]]
         callers = []
+        if nd and rng.random() < 0.8:
+            u = rng.choice(nd)
+            s, tag = cnt[u], 'on-near-duplicate-knot'
+            pick = (u, s, tag)
         if case.get('caller_knot'):
             # the values the caller supplied for the interior knots of this direction (shape dict), where the object holds another double
             callers = [k for k in set(sd['kvs'][d][degs[d] + 1:-degs[d] - 1]) if k not in cnt and min(abs(k - x) for x in cnt) < 1e-12]
-        if callers and rng.random() < 0.8:
+        if nd and pick is not None and pick[2] == 'on-near-duplicate-knot':
+            u, s, tag = pick
+        elif callers and rng.random() < 0.8:
             u = rng.choice(callers)
             s = cnt[min(cnt, key=lambda x: abs(x - u))]
             tag = 'caller-knot-value'
@@ -180,7 +205,7 @@ def check(case, ctx):
             continue
         else:
             u, s, tag = pick
-        ctx.tag('near-start' if (fine and tag == 'in-span') else tag.split('-m')[0] if tag not in ('on-knot-full', 'on-jump-knot', 'caller-knot-value') else tag)
+        ctx.tag('near-start' if (fine and tag == 'in-span') else tag.split('-m')[0] if tag not in ('on-knot-full', 'on-jump-knot', 'caller-knot-value', 'on-near-duplicate-knot') else tag)
         if tag == 'on-knot-full':
             ctx.tag('on-knot')
         if len(U) > 2 * (degs[d] + 1):
